@@ -4,6 +4,7 @@ mod compile;
 mod exec;
 mod heap;
 mod server;
+mod server_gen;
 mod util;
 
 fn main() {
@@ -17,6 +18,7 @@ fn main() {
     "ts-run" => exec::ts_run::main_run(rest),
     "ts-erase" => exec::ts_run::main_erase(rest),
     "wasm-run" => exec::wasm_interp::main(rest),
+    "server-gen" => server_gen::main(rest),
     "server-show" => server::show(rest),
     "server-replay" => server::replay(rest),
     _ => {
